@@ -256,6 +256,33 @@ func VerifC22Idempotent() {
 	verifrt.Assert(n <= 1, "C22.adding-an-operation-is-idempotent")
 }
 
+// VerifC22ResubmitFilteredOut: an operation that a hand-out filtered out (the filter rejected it)
+// is submitted again before the pool's periodic cleanup: adding it is still idempotent (it is still
+// stored), and it is not returned again.
+func VerifC22ResubmitFilteredOut() {
+	db := verifC22Pool()
+	k := 1 + verifrt.NondetChoice("ops", verifrt.Bound("resubmit_ops", 2, 3))
+	ops := verifC22Add(db, k)
+	rejected := verifrt.NondetChoice("rejected", k)
+	rs, err := db.OperationHashes(context.Background(), base.Height(33), uint64(k+1),
+		func(meta isaac.PoolOperationRecordMeta) (bool, error) {
+			return !meta.Operation().Equal(ops[rejected].h), nil
+		})
+	verifrt.Assert(err == nil, "C22.resubmit.no-error")
+	for _, r := range rs {
+		verifrt.Assert(!r[0].Equal(ops[rejected].h), "C22.every-entry-passes-the-filter")
+	}
+	added, err := db.SetOperation(context.Background(), verifC22NewOp(rejected, ops[rejected].factid))
+	verifrt.Reach("C22.resubmit.added-again")
+	verifrt.Assert(err == nil, "C22.resubmit.no-error")
+	verifrt.Assert(!added, "C22.adding-an-operation-is-idempotent(filtered-out-operation-submitted-again)")
+	rs, err = db.OperationHashes(context.Background(), base.Height(34), uint64(k+1), nil)
+	verifrt.Assert(err == nil, "C22.resubmit.no-error")
+	for _, r := range rs {
+		verifrt.Assert(!r[0].Equal(ops[rejected].h), "C22.filtered-out-operations-are-not-returned-again(after-being-submitted-again)")
+	}
+}
+
 // VerifC22Repeat: two successive hand-outs with an accept-all filter and a limit that is never
 // reached. This entry encodes the STRONGER reading of "for a fact submitted several times the
 // most recently added operation is chosen", namely on every call: no operation was rejected by
